@@ -8,10 +8,10 @@ from ..teal import langspec as LS
 from .gen import prog
 
 
-def field_probes(mode: str, version: int):
+def field_probes(mode: str, version: int, all_versions: bool = False):
     out = []
     for name, (mv, ty, arr) in sorted(LS.TXN_FIELDS.items()):
-        if mv > version:
+        if mv > version and not all_versions:
             continue
         if arr:
             if name == "ApplicationArgs":
@@ -27,7 +27,7 @@ def field_probes(mode: str, version: int):
             out.append(("field:gtxn:%s:asU" % name, prog(mode, ("Seq", ("Un", "Pop", ("Bin", "Add", g, ("Int", 1))), ("Return", ("Int", 1)))), {}))
             out.append(("field:gtxn:%s:asB" % name, prog(mode, ("Seq", ("Un", "Pop", ("Un", "Len", g)), ("Return", ("Int", 1)))), {}))
     for name, (mv, ty) in sorted(LS.GLOBAL_FIELDS.items()):
-        if mv > version:
+        if mv > version and not all_versions:
             continue
         if mode == "S" and name in LS.GLOBAL_APP_ONLY:
             continue
